@@ -44,6 +44,9 @@ GRAMMARS = {
     # ties on priority and rule order: only the split point differs
     'split': (Grammar([Rule('start', [[N('a'), N('b')]]), Rule('a', [[X], [X, X]]), Rule('b', [[X], [X, X]])], declare=['X']), ['X'], 4),
     'split3': (Grammar([Rule('start', [[N('x'), N('x'), N('x')]]), Rule('x', [[A], [A, A]])], declare=['A']), ['A'], 5),
+    # several different non-terminals in leftmost position, tied derivations (prediction order must not decide)
+    'leftmost': (Grammar([Rule('start', [[N('t'), N('t'), N('t')], [N('e'), N('t')], [N('u'), N('e')]]), Rule('t', [[X], [X, X]]), Rule('e', [[X, X], [X, X, X]]),
+                          Rule('u', [[X]])], declare=['X']), ['X'], 5),
     # reduce/reduce style choice
     'ef': (Grammar([Rule('start', [[N('e'), A], [N('f'), A]]), Rule('e', [[X]]), Rule('f', [[X]])], declare=['A', 'X']), ['A', 'X'], 2),
 }
@@ -53,6 +56,9 @@ GRAMMARS_EMPTY = {
 }
 
 TXT_GRAMMARS = {
+    # a terminal that can itself begin with ignorable text: "skip the ignored text first, then match" competes with the direct match
+    'ignstart': (Grammar([Rule('start', [[T('A'), Plus(N('x'))]]), Rule('x', [[T('TB')], [T('B')]])],
+                         terms=[Term('A', 'a'), Term('TB', ('re', 'xb|x')), Term('B', 'b'), Term('IGN', 'x')], ignore=['IGN']), ['axb', 'axxb', 'axbxb']),
     # colliding terminals under the dynamic lexer: terminal priorities take part
     'collide': (Grammar([Rule('start', [[Plus(N('x'))]]), Rule('x', [[T('AB')], [T('A')], [T('B')]])],
                         terms=[Term('A', 'a'), Term('B', 'b'), Term('AB', 'ab')]), ['ab', 'abab', 'aab', 'abb']),
@@ -128,7 +134,7 @@ def _sym_body(rec, wi, ps):
     tree = LARK.parse(w if TEXT else [NAMES.index(k) for k in w])
     with hs.untraced():
         got = shape.of_lark(tree)
-        inp = cfg.TextInput(w, RX, mode='longest') if TEXT else cfg.TokenInput(w)
+        inp = cfg.TextInput(w, RX, ignore=G.ignore, mode='longest') if TEXT else cfg.TokenInput(w)
         ds = cfg.Recognizer(BNF, inp).derivations(limit=3000)
         shaped = [shape.shape_root(d, inp) for d in ds]
         rcounts = [_rule_counts(d, {}) for d in ds]
